@@ -296,6 +296,7 @@ int set_sip_nsip(struct msa* msa)
                 msa->nsip = NULL;
         }
 
+        ASSERT(msa->numseq > 0, "No sequences found.");
         msa->num_profiles = (msa->numseq << 1 )-1;
 
         MMALLOC(msa->sip,sizeof(int*)* msa->num_profiles);
